@@ -263,7 +263,10 @@ fn flat<T: Scalar>(v: &V, prefix: &[f64], c: f64, flat_len: usize, out: &mut Tri
             return;
         };
         // from the moment the window (N values, N+1 for the change-based views) is flat
-        if t >= prefix.len() + n {
+        // long flat stretches are sampled (every 41st step and the last five), short ones checked
+        // at every step
+        let sampled = flat_len <= 200 || (t - prefix.len()) % 41 == 0 || t + 5 >= xs.len();
+        if t >= prefix.len() + n && sampled {
             out.count("flat_window_steps_checked", 1);
             if !check(&cx, &xs, t, got, big, out) {
                 return;
@@ -326,7 +329,11 @@ impl Monitor for C16 {
             if c == 0.0 && matches!(v.kind, Kind::Roc(_)) {
                 c = 7.0;
             }
-            let flat_len = n + 1 + rng.usize(0, 2 * n);
+            // mostly N+1..3N identical values; one flat trial in four holds the value for thousands of
+            // updates (stale residue that is amplified slowly, by a decaying normaliser, shows only then)
+            // (not for LaguerreRSI: CU/(CU+CD) of four stages that converge to the same value is a
+            // ratio of vanishing quantities for which the statement makes no flat-window claim)
+            let flat_len = if rng.chance(1, 4) && !matches!(v.kind, Kind::LagRsi(_)) { rng.usize(1500, 3000) } else { n + 1 + rng.usize(0, 2 * n) };
             if idx % 43 == 0 {
                 out.sample(format!("flat: {} after a {} prefix of {} values, then {} x {:?}", Spec::leaf(v.kind).show(), if wide { "wide-range" } else { "three-decade" }, plen, flat_len, c));
             }
